@@ -53,8 +53,11 @@ def run_kani_unit(unit_dir, tier):
     t0 = time.time()
     try:
         repo = vlib.REPO
-        sc = os.path.join(BUILD, 'kani', unit, 'repo')
+        import hashlib
+        # one scratch copy per repository path (concurrent checks of different trees must not share it)
+        sc = os.path.join(BUILD, 'kani', unit, 'repo' if repo == '/repo' else 'repo-' + hashlib.md5(repo.encode()).hexdigest()[:8])
         os.makedirs(sc, exist_ok=True)
+        res['_scratch'] = None if repo == '/repo' else sc
         p = subprocess.run(['rsync', '-a', '--delete', '--exclude', 'target', '--exclude', '.git', repo + '/', sc + '/'], capture_output=True, text=True)
         if p.returncode != 0:
             raise Undecided('rsync failed: ' + p.stderr[-300:])
@@ -124,6 +127,9 @@ def run_kani_unit(unit_dir, tier):
     elif res['undecided']:
         res['status'] = 'undecided'
     res['wall'] = time.time() - t0
+    if res.get('_scratch'):
+        shutil.rmtree(res['_scratch'], ignore_errors=True)   # scratch copies of scratch trees are not kept
+    res.pop('_scratch', None)
     return res
 
 
@@ -316,8 +322,15 @@ def analyse(res, asm, r):
         if oid is None:
             # a lemma or raw template function
             oid = '%s::template@%s::%s' % (unit, org[1] if org[0] == 'tpl' else '?', kind)
-        fails.append({'obligation': oid, 'kind': kind, 'fn': fn['path'] if fn else None, 'message': detail,
-                      'line': pl, 'text': text.strip(), 'rendered': d.get('rendered', '')[:3000]})
+        rec = {'obligation': oid, 'kind': kind, 'fn': fn['path'] if fn else None, 'message': detail,
+               'line': pl, 'text': text.strip(), 'rendered': d.get('rendered', '')[:3000]}
+        if fn and (fn.get('inlined') or fn.get('anchors_lost')):
+            # the proof of this function was written for another shape of the code (a helper was inlined by R23 / a hint lost its
+            # anchor): a failed obligation here may be the missing proof aid and not the code => undecided, never an alarm
+            res['undecided'].append('obligation %s failed in %s, whose %s: not reported as a violation (%s)' % (
+                oid, fn['path'], 'helper calls were inlined (R23)' if fn.get('inlined') else 'proof hints lost their anchor', detail))
+            continue
+        fails.append(rec)
     if js is None or vr is None:
         res['undecided'].append('verus produced no result json: ' + r['stderr'][-800:])
     elif vr.get('encountered-vir-error') or (vr.get('encountered-error') and not fails and not res['undecided']):
@@ -463,14 +476,18 @@ def main():
         results += [f.result() for f in fk]
 
     obligations, failures, undecided = [], [], []
+    also = tuple(cfg.get('also_counts', []))   # labels of another property's contracts that carry this property too
+
+    def mine(label):
+        p = prop_of_label(label)
+        return p is None or p == prop or (also and label.startswith(also))
+
     for r in results:
         for o in r['obligations']:
-            p = prop_of_label(o['id'].split('::')[-1])
-            if p is None or p == prop:
+            if mine(o['id'].split('::')[-1]):
                 obligations.append(o)
         for f in r['failures']:
-            p = prop_of_label(f['obligation'].split('::')[-1])
-            if p is None or p == prop:
+            if mine(f['obligation'].split('::')[-1]):
                 f['unit'] = r['unit']
                 failures.append(f)
         for u in r['undecided']:
